@@ -810,6 +810,11 @@ func (rl *Shell) keywordSwitch(increase bool) {
 		bpos--
 	}
 
+	// There might be no word under the cursor.
+	if bpos < 0 || bpos >= epos || epos > rl.line.Len() {
+		return
+	}
+
 	// Get the selection string
 	selection := string((*rl.line)[bpos:epos])
 
